@@ -345,6 +345,9 @@ func recursesOnCallbackArg(info *types.Info, call *ast.CallExpr, fn *types.Func)
 	if len(call.Args) != 1 {
 		return false
 	}
+	if callee(info, &ast.CallExpr{Fun: call.Args[0]}) == fn {
+		return true // the function itself is the callback
+	}
 	lit, ok := unparen(call.Args[0]).(*ast.FuncLit)
 	if !ok || len(lit.Type.Params.List) != 1 || len(lit.Type.Params.List[0].Names) != 1 {
 		return false
@@ -395,7 +398,7 @@ func c08Fencing(r *Run, m *ServerModel) {
 			for _, f := range fields {
 				n++
 				g := Guard{"deleted " + f, []Lit{L(true, "$"+f+".isDeleted()")}, 22}
-				ok, detail := m.checkGuard(h, b.Site.St, g, m.DB.Exits[root])
+				ok, detail := m.checkGuard(h, b.Site.St, g, m.exitsDeep(root))
 				key := fmt.Sprintf("%s: fenced on %s", b.Key(), f)
 				if ok {
 					r.ok("r4", key, b.Site.Call.Pos(), "%s", detail)
@@ -443,7 +446,7 @@ func c08Fencing(r *Run, m *ServerModel) {
 			found = true
 			n++
 			g := Guard{"deleted fid", []Lit{L(true, "$fid.isDeleted()")}, 22}
-			ok, detail := m.checkGuard(h, fa.St, g, m.DB.Exits[fi])
+			ok, detail := m.checkGuard(h, fa.St, g, m.exitsDeep(fi))
 			if ok {
 				r.ok("r4", "p9.txattrcreate.handle: fenced", fa.Sel.Pos(), "%s", detail)
 			} else {
@@ -464,7 +467,7 @@ func c08Fencing(r *Run, m *ServerModel) {
 			}
 			n++
 			g := Guard{"walk from a deleted directory", []Lit{L(true, b.Base+".isDeleted()")}, 2}
-			ok, detail := m.checkGuard(h, b.Outer.St, g, m.DB.Exits[dw])
+			ok, detail := m.checkGuard(h, b.Outer.St, g, m.exitsDeep(dw))
 			// same region: the isDeleted call and the walk are in the same literal
 			same := false
 			for _, s := range m.callsIn(dw, "p9.fidRef.isDeleted") {
